@@ -100,7 +100,7 @@ def register(reg):
 
     # do_photometry: the summed bags.  slc_large / aper_weights / pixel_mask are what
     # _get_overlap_cutouts returns (its contract above), data / error are image-shaped.
-    env = {'data': ('arr', 2, 'real', 'nonempty'), 'error': ('arr', 2, 'real', 'nonempty'),
+    env = {'data': ('arr', 2, 'real', 'nonempty'), 'error': ('arr', 2, 'real', 'nonempty', 'anydtype'),
            'slc_large': 'slice2', 'aper_weights': ('arr', 2, 'real'),
            'pixel_mask': ('arr', 2, 'bool')}
     pre = ['0 <= slc_large[0].start', 'slc_large[0].start < slc_large[0].stop',
@@ -128,7 +128,7 @@ def register(reg):
                   'values = (data[slc_large] * pixel_mask)[pixel_mask]')],
     ))
     reg.add(Contract(
-        target=f'{A}.do_photometry', props=['C02', 'C19'], kind='method', stmt='variance',
+        target=f'{A}.do_photometry', props=['C02', 'C19', 'C15'], kind='method', stmt='variance',
         stmt_like='(error[slc_large].astype(float) ** 2 * aper_weights)[pixel_mask]',
         params=env, requires=pre,
         ensures=[
@@ -139,7 +139,8 @@ def register(reg):
              'forall(lambda j, i: val(value, j, i) == aper_weights[j, i] * '
              'sq(error[j + slc_large[0].start, i + slc_large[1].start]), ' + box + ')'),
         ],
-        mutants=[('error[slc_large].astype(float)**2', 'error[slc_large].astype(float)'),
+        mutants=[('error[slc_large].astype(float)**2', 'error[slc_large]**2'),
+                 ('error[slc_large].astype(float)**2', 'error[slc_large].astype(float)'),
                  ('error[slc_large].astype(float)**2', 'error[slc_large].astype(float)**2 * aper_weights')],
     ))
 
